@@ -345,13 +345,20 @@ impl Engine for GlideEngine {
                         if (te as f64) * fsd < 4.0 {
                             refs.extend_from_slice(&[0.0, 2.0 / fsd, 4.0 / fsd]);
                         }
+                        // ... and the same two readings for the requested time (a request above 10 s is a request for 10 s)
+                        let mut reqs = vec![t as f64, (t as f64).min(10.0)];
+                        if (t as f64) * fsd < 4.0 {
+                            reqs.extend_from_slice(&[0.0, 2.0 / fsd, 4.0 / fsd]);
+                        }
                         let mut votes = Vec::new();
                         for e in refs {
-                            let d = (t as f64 - e).abs();
-                            if (d - 0.05).abs() < 1e-6 * (1.0 + t.abs() as f64 + te.abs() as f64) {
-                                ambiguous = true;
+                            for r in reqs.iter() {
+                                let d = (r - e).abs();
+                                if (d - 0.05).abs() < 1e-6 * (1.0 + t.abs() as f64 + te.abs() as f64) {
+                                    ambiguous = true;
+                                }
+                                votes.push(d > 0.05);
                             }
-                            votes.push(d > 0.05);
                         }
                         if votes.iter().any(|v| *v != votes[0]) {
                             ambiguous = true;
